@@ -294,6 +294,10 @@ def h_read(cx, fmt, reps, nrec, first, step, p=None, listing=None, sel=None, tru
                 s_ = sel.get('r_step', 1)
                 pairs = [(c, v) for c, v in pairs if (a in (None, 0) or c >= a) and (b is None or c <= b)][::s_]
             name = '%s|%s' % (prefix, rep)
+            if sel and sel.get('names'):
+                # explicit chain names: given in the numeric order of the replica numbers of the files
+                rank = sorted(reps, key=lambda r: int(r[1:])).index(rep)
+                name = sel['names'][rank]
             per_rep[name] = pairs
         if any(len(v) < 5 for v in per_rep.values()):
             cx.fail('reader returned an observable although fewer than 5 complete records are available', str({k: len(v) for k, v in per_rep.items()}))
